@@ -196,6 +196,8 @@ Record tables := {
   add_keeps_units : bool;
   (* does TimeDomainExpression.FT restore the scaled units after result(var)/expand/simplify *)
   ft_keeps_units : bool;
+  (* does Expr.magnitude of a real-valued expression rebuild self.__class__ (instead of expr(abs(...))) *)
+  mag_real_keeps : bool;
   asq : quantity -> asres;                       (* ExprDomain.as_quantity dispatch *)
   as_expr_cls : domain -> quantity -> option (domain * quantity);   (* class built by as_expr(), None = self *)
   sites : list (domain * domain * uvec);         (* change(..., units_scale=...) call sites *)
